@@ -314,7 +314,12 @@ def _get_function_insertion_lineno(
 def _get_constant_insertion_lineno(scope: ast.AST) -> int:
     import_types = (ast.Import, ast.ImportFrom)
     imports = [node for node in scope.body if not isinstance(node, import_types)]
-    return min((node.lineno for node in imports)) - 1
+    # The lineno of a decorated function or class is the line of its "def"/"class" keyword: the
+    # statement starts at its first decorator, and nothing can be inserted between the two.
+    return min(
+        min([node.lineno, *(dec.lineno for dec in getattr(node, "decorator_list", ()))])
+        for node in imports
+    ) - 1
 
 
 def create_abstractions(source: str) -> str:
@@ -629,7 +634,14 @@ def overused_constant(source: str, *, root_is_static: bool) -> str:
         additions.add(assign)
         replacements.update({node: name for node in nodes})
 
-    return processing.alter_code(source, root, additions=additions, replacements=replacements)
+    new_source = processing.alter_code(
+        source, root, additions=additions, replacements=replacements
+    )
+    # The caller parses the result right away, unlike the rules that go through processing.fix
+    if not core.is_valid_python(new_source):
+        return source
+
+    return new_source
 
 
 def simplify_if_control_flow(source: str) -> str:
